@@ -51,6 +51,24 @@ def minimal_bytes(v):
     return n
 
 
+_WS = " \t\n\r\x0b\x0c\x1c\x1d\x1e\x1f"
+
+
+def f1_value(s, grammar_value):
+    """The value the known defect C20-F1 produces for s, or None when s is outside the class: text "0b0b" ["_"] rest
+    (after strip + lower) read as the documented binary number "0b" rest."""
+    if not all(ord(c) < 128 for c in s):
+        return None
+    t = s.strip(_WS)
+    t = "".join(chr(ord(c) + 32) if "A" <= c <= "Z" else c for c in t)
+    if not t.startswith("0b0b"):
+        return None
+    rest = t[4:]
+    if rest.startswith("_"):
+        rest = rest[1:]
+    return grammar_value("0b" + rest)
+
+
 _DOC_BCD = re.compile(r"[0-9]{1,4}\.[0-9]{1,4}\.[0-9]{1,4}")
 _CANON_BCD = re.compile(r"(0|[1-9][0-9]{0,3})\.(0|[1-9][0-9]{0,3})\.(0|[1-9][0-9]{0,3})")
 
@@ -70,8 +88,9 @@ def ext_oracle(case, res, grammar_value):
         name = "value_to_bytes(str)"
         if want is None:
             if ok:
-                t = s.strip().lower()
-                sig = "dup-binary-prefix" if t.startswith("0b0b") else "grammar"
+                # known finding C20-F1, keyed on the OUTCOME: the bytes encode int(rest, 2) of the doubled-prefix text
+                f1 = f1_value(s, grammar_value)
+                sig = "dup-binary-prefix" if (f1 is not None and int.from_bytes(val, "big" if big else "little") == f1) else "grammar"
                 return True, (f"{name}:{sig}", f"value_to_bytes({s!r}) = {val.hex()}, the documented grammar has no such number")
             return True, None
         m = minimal_bytes(want)
